@@ -569,7 +569,7 @@ variant('b-resume-wrong-code', ['C16'], B,
 variant('b-error-reply-on-stream-zero', ['C16', 'C12'], B,
         """                    logger().error('%s: Protocol error %s', self._log_identifier(), str(exception))
                     self.send_error(frame.stream_id, exception)""", """                    logger().error('%s: Protocol error %s', self._log_identifier(), str(exception))
-                    self.send_error(CONNECTION_STREAM_ID, exception)""", ('C', 'error reply'))
+                    self.send_error(CONNECTION_STREAM_ID, exception)""", ('C', ''))
 
 # ----------------------------------------------------------------------------------------------- C17
 variant('b-connect-no-alive-reset', ['C17'], 'rsocket/rsocket_client.py',
@@ -827,3 +827,116 @@ variant('t-rotate-guard-helper-var', ['C05'], B,
         """                same_stream_waiting = self._send_queue.any_other(
                     next_frame_source, lambda queued: queued.stream_id == stream_id)
                 if not same_stream_waiting:""", kind='twin')
+
+# ----------------------------------------------------------------------------------------------- C04 / C12
+FP = 'rsocket/frame_parser.py'
+variant('b-parser-drops-length-only', ['C04'], FP,
+        "            self._buffer = self._buffer[length + frame_length_byte_count:]",
+        "            self._buffer = self._buffer[length:]", ('C04.a', 'prefix size 3'))
+variant('b-parser-counter-drift', ['C04'], FP,
+        "            total -= length + frame_length_byte_count", "            total -= length", ('C04', 'prefix size 3'))
+variant('b-parser-completeness-off', ['C04'], FP,
+        "            if total < length + frame_length_byte_count:\n                return",
+        "            if total < length:\n                return", ('C04.a', 'prefix size 3'))
+variant('b-parser-advance-before-check', ['C04'], FP,
+        """            if total < length + frame_length_byte_count:
+                return
+
+            try:""", """            if total < length + frame_length_byte_count:
+                self._buffer = self._buffer[frame_length_byte_count:]
+                return
+
+            try:""", ('C04.b', 'incomplete'))
+variant('b-parser-length-little-endian', ['C04'], FP,
+        "length = struct.unpack('>I', b'\\x00' + self._buffer[:frame_length_byte_count])[0]",
+        "length = struct.unpack('<I', self._buffer[:frame_length_byte_count] + b'\\x00')[0]", ('C04', ''))
+variant('b-parser-length-from-chunk', ['C04'], FP,
+        "length = struct.unpack('>I', b'\\x00' + self._buffer[:frame_length_byte_count])[0]",
+        "length = struct.unpack('>I', b'\\x00' + data[:frame_length_byte_count])[0]", ('C04.c', 'length'))
+variant('b-parser-extend-in-loop', ['C04'], FP,
+        """        self._buffer.extend(data)
+        total = len(self._buffer)
+
+        frame_length_byte_count = header_length
+
+        while total >= frame_length_byte_count:""", """        total = len(self._buffer) + len(data)
+
+        frame_length_byte_count = header_length
+
+        while total >= frame_length_byte_count:
+            self._buffer.extend(data)""", ('C04.d', 'appended once'))
+variant('b-parser-invalid-then-return', ['C04'], FP,
+        """                logger().error('Error parsing frame', exc_info=True)
+                yield InvalidFrame()
+""", """                logger().error('Error parsing frame', exc_info=True)
+                yield InvalidFrame()
+                return
+""", ('C04.e', 'undecodable'))
+variant('b-parser-narrow-except', ['C04', 'C12'], FP,
+        "            except Exception:\n                logger().error('Error parsing frame'",
+        "            except RSocketProtocolError:\n                logger().error('Error parsing frame'", ('C', ''))
+variant('b-tcp-parses-without-prefix', ['C04'], 'rsocket/transports/tcp.py',
+        "        return self._frame_parser.receive_data(data)", "        return self._frame_parser.receive_data(data, 0)",
+        ('C04.f', 'TransportTCP'))
+variant('b-websocket-parses-with-prefix', ['C04'], 'rsocket/transports/aiohttp_websocket.py',
+        "                async for frame in self._frame_parser.receive_data(message, 0):",
+        "                async for frame in self._frame_parser.receive_data(message):", ('C04.f', 'TransportAioHttpWebsocket'))
+variant('b-parser-empty-message-loop', ['C04', 'C12'], FP,
+        "        if len(data) == 0:\n            return\n\n", "", ('C12.e', 'prefix size 0'))
+variant('t-parser-named-extent', ['C04', 'C12'], FP,
+        """            if total < length + frame_length_byte_count:
+                return
+""", """            frame_end = length + frame_length_byte_count
+            if total < frame_end:
+                return
+""", kind='twin')
+
+RB = 'rsocket/rsocket_base.py'
+variant('b-receiver-no-catch-all', ['C12'], RB,
+        """                except RSocketTransportError:
+                    raise
+                except Exception as exception:
+                    logger().error('%s: Unknown error', self._log_identifier(), exc_info=True)
+                    self.send_error(frame.stream_id, exception)
+""", """                except RSocketTransportError:
+                    raise
+""", ('C12.b', '_receiver_listen'))
+variant('b-receiver-swallows-transport-error', ['C12'], RB,
+        """                except RSocketTransportError:
+                    raise
+                except Exception as exception:""", """                except Exception as exception:""",
+        ('C12.b', '_receiver_listen'))
+variant('b-invalid-frame-after-use', ['C12'], RB,
+        """        if isinstance(frame, InvalidFrame):
+            return
+
+        if is_fragmentable_frame(frame):""", """        if is_fragmentable_frame(frame):""", ('C12.c', 'marker'))
+variant('b-unknown-stream-raises', ['C12'], RB,
+        """            logger().warning('%s: Dropping frame from unknown stream %d', self._log_identifier(),
+                             complete_frame.stream_id)""", """            raise RSocketProtocolError(ErrorCode.INVALID, data='unknown stream')""",
+        ('C12.d', 'unknown'))
+variant('b-decoder-no-length-check', ['C12'], F,
+        """    if len(buffer) < HEADER_LENGTH:
+        raise ParseError('Frame too short: {} bytes'.format(len(buffer)))
+
+""", "", ('C12.a', 'too-short'))
+variant('b-tags-zero-progress', ['C12', 'C18'], 'rsocket/extensions/tagging.py',
+        """            tag_length = struct.unpack('>B', buffer[offset:offset + 1])[0]
+            offset += 1
+            self.tags.append(buffer[offset:offset + tag_length])
+            offset += tag_length""", """            tag_length = struct.unpack('>B', buffer[offset:offset + 1])[0]
+            self.tags.append(buffer[offset + 1:offset + 1 + tag_length])
+            offset += tag_length""", ('C12.e', 'TaggingMetadata.parse'))
+variant('b-routing-stream-propagates', ['C12'], 'rsocket/routing/routing_request_handler.py',
+        """        try:
+            return await self._parse_and_route(FrameType.REQUEST_STREAM, payload)
+        except Exception as exception:
+            logger().error('Request stream error: %s', payload, exc_info=True)
+
+            return ErrorStream(exception)""", """        return await self._parse_and_route(FrameType.REQUEST_STREAM, payload)""",
+        ('C12.f', 'request_stream'))
+variant('b-feeder-swallows-generator-error', ['C12'], 'rsocket/streams/stream_from_generator.py',
+        """            logger().error('Stream error', exc_info=True)
+            self._subscriber.on_error(exception)
+            self._cancel_feeders()""", """            logger().error('Stream error', exc_info=True)
+            self._cancel_feeders()""", ('C12.f', 'queue_next_n'))
